@@ -458,19 +458,21 @@ End MSparse.
    false = randomised_parafac before that fix: a callback returning True broke BEFORE the value was appended. *)
 Section SimpleLoop.
 Variables (St E : Type).
-Record soracle := mkS { s_update : nat -> St -> St; s_stop : nat -> bool; s_cb_stop : nat -> bool }.
-Variables (err : St -> E) (Or : soracle) (record_before_callback : bool).
+Record soracle := mkS { s_update : nat -> St -> St; s_stop : nat -> bool; s_cb_stop : nat -> bool;
+                        s_norm : St -> St (* tucker_normalize / cp_normalize of the iterate, applied AFTER its error was recorded *) }.
+Variables (err : St -> E) (Or : soracle) (record_before_callback normalize : bool).
 Fixpoint s_loop (n it : nat) (cur : St) (errs : list E) : St * list E :=
   match n with
   | 0 => (cur, errs)
   | S n' =>
       let st := s_update Or it cur in
-      if s_cb_stop Or it then (st, if record_before_callback then errs ++ [err st] else errs)
+      let stN := if normalize then s_norm Or st else st in      (* on every exit and at the end of the iteration *)
+      if s_cb_stop Or it then (stN, if record_before_callback then errs ++ [err st] else errs)
       else let errs' := errs ++ [err st] in
-           if s_stop Or it then (st, errs') else s_loop n' (S it) st errs'
+           if s_stop Or it then (stN, errs') else s_loop n' (S it) stN errs'
   end.
 End SimpleLoop.
-Arguments mkS {St}. Arguments s_update {St}. Arguments s_stop {St}. Arguments s_cb_stop {St}. Arguments s_loop {St E}.
+Arguments mkS {St}. Arguments s_update {St}. Arguments s_stop {St}. Arguments s_cb_stop {St}. Arguments s_norm {St}. Arguments s_loop {St E}.
 
 (* ---------------------------------------------------------------- observable projection of a skeleton trace *)
 (* what an outside observer of parafac / non_negative_parafac / non_negative_parafac_hals sees when the MTTKRP, cp_normalize, the
@@ -489,3 +491,66 @@ Fixpoint obs_of_trace {B E} (after_ls : bool) (tr : list (event B E)) : list nat
   | EBreak :: tr' => obs_of_trace after_ls tr'
   | EReturn _ :: tr' => obs_of_trace after_ls tr'
   end.
+
+(* ================================================================ additions of round 5 ================= *)
+(* ---------------------------------------------------------------- cp_normalize, executable *)
+(* tensorly/cp_tensor.py:cp_normalize step by step, over any operation record:
+     if weights is None: weights = ones(rank)
+     for i, factor in enumerate(factors):
+         if i == 0: factor = factor * weights; weights = ones(rank)                         <- absorb_weights_F
+         scales = norm(factor, axis=0); scales_non_zero = where(scales == 0, 1, scales)
+         weights = weights * scales; normalized_factors.append(factor / scales_non_zero)   <- normalize_columns_F
+   The square root inside `norm` is not an operation of the record: the column norms `sc k r` are handed in.  Over the reals they
+   are sqrt(colsq) (Model/ErrorsR.v: cp_normalize_R is this function with sc = colnorm, Proofs/ErrorsNormalizeR.v); on the executed
+   side they are an answer tape that the correspondence validates by squaring (0 <= sc and sc^2 = colsq up to rounding). *)
+Section CPNormalize.
+Context {F : Type} (Op : fops F).
+Variable s : list nat.
+Definition absorb_weights_F (st : blocks (@blk F)) : blocks (@blk F) :=
+  fun k i r =>
+    if k =? 0 then fmul Op (st 0 i r) (st (length s) 0 r)
+    else if k =? length s then f1 Op
+    else st k i r.
+(* sum(factor ** 2, axis=0) *)
+Definition colsq (st : blocks (@blk F)) (k r : nat) : F := Fsum Op (nth k s 0) (fun i => fmul Op (st k i r) (st k i r)).
+Definition nonzero_scale_F (d : F) : F := if feqb Op d (f0 Op) then f1 Op else d.
+Definition normalize_columns_F (sc : nat -> nat -> F) (st : blocks (@blk F)) : blocks (@blk F) :=
+  fun k i r =>
+    if k <? length s then fdiv Op (st k i r) (nonzero_scale_F (sc k r))
+    else if k =? length s then fmul Op (st k i r) (prodF Op (map (fun k' => sc k' r) (seq 0 (length s))))
+    else st k i r.
+Definition cp_normalize_F (sc : nat -> nat -> F) (st : blocks (@blk F)) : blocks (@blk F) :=
+  normalize_columns_F sc (absorb_weights_F st).
+End CPNormalize.
+
+(* (weights, factors) as data -> blocks *)
+Definition blocks_of {F} (Op : fops F) (w : option (list F)) (fs : list (tensor F)) : blocks (@blk F) :=
+  fun k i r => if k <? length fs then get (f0 Op) (nth k fs (mk [] [])) [i; r] else wfun Op w r.
+Definition rows_of {F} (fs : list (tensor F)) : list nat := map (fun t => nth 0 (shape t) 0) fs.
+
+(* ---------------------------------------------------------------- tucker_normalize *)
+(* as a relation (ring regime): the columns of every factor are rescaled (U_k[i, a] = d_k(a) * U'_k[i, a]) and the core absorbs the
+   scales (G'[j] = G[j] * prod_k d_k(j_k)) *)
+Section TuckerNormalize.
+Context {F : Type} (Op : fops F).
+Fixpoint tscaled (s rs : list nat) (us us' : list (nat -> nat -> F)) (ds : list (nat -> F)) : Prop :=
+  match s, rs, us, us', ds with
+  | n :: s0, r :: rs0, u :: us0, u' :: us0', d :: ds0 =>
+      (forall i a, i < n -> a < r -> u i a = fmul Op (d a) (u' i a)) /\ tscaled s0 rs0 us0 us0' ds0
+  | [], [], [], [], [] => True
+  | _, _, _, _, _ => False
+  end.
+Fixpoint proddl (ds : list (nat -> F)) (j : list nat) : F :=
+  match ds, j with d :: ds', a :: j' => fmul Op (d a) (proddl ds' j') | _, _ => f1 Op end.
+(* tensorly/tucker_tensor.py:tucker_normalize step by step, the column norms sc k a = norm(factors[k][:, a]) handed in (see cp_normalize_F):
+     for i, factor in enumerate(factors):
+         scales = norm(factor, axis=0); scales_non_zero = where(scales == 0, 1, scales)
+         core = core * reshape(scales, (1,)*i + (-1,) + (1,)*(ndim - i - 1))
+         normalized_factors.append(factor / scales_non_zero)
+   the factors are block k < N of `st` (row, column) *)
+Definition tucker_us (N : nat) (st : blocks (@blk F)) : list (nat -> nat -> F) := map (fun k i a => st k i a) (seq 0 N).
+Definition tucker_normalize_core (N : nat) (sc : nat -> nat -> F) (G : list nat -> F) : list nat -> F :=
+  fun j => fmul Op (G j) (proddl (map (fun k a => sc k a) (seq 0 N)) j).
+Definition tucker_normalize_factors (sc : nat -> nat -> F) (st : blocks (@blk F)) : blocks (@blk F) :=
+  fun k i a => fdiv Op (st k i a) (nonzero_scale_F Op (sc k a)).
+End TuckerNormalize.
